@@ -56,6 +56,7 @@ type VC struct {
 	sortFlush  int
 	axiomsDone bool
 	Variant    string
+	FirstIter  []string // replay hints: loop-head state equals the state before the loop
 	extraHeaps map[string]string
 	extraOrder []string
 }
